@@ -40,7 +40,7 @@ const size_t MAXLIVE[] = {1000000, 4, 6, 8, 9, 10, 11, 12, 5, 7, 3};
 const int NMAXLIVE = 11;
 
 // comparison functions (consistent strict weak orders); priv must arrive unchanged
-int g_priv_token;
+int g_priv_token, g_clear_token;      // (the comparison priv and the clear priv are different pointers)
 int g_cmp_kind;
 const char *g_cmp_clause = "C01.cmp.priv";
 uint64_t g_cmp_calls;
@@ -182,7 +182,7 @@ void clear_cb(void *obj, void *priv)
     HarnessScope hs;
     ClearCtx *c = g_clear_ctx;
     c->calls++;
-    if (priv != &g_priv_token) { c->bad = true; return; }
+    if (priv != &g_clear_token) { c->bad = true; return; }
     Elem *e = (Elem *)obj;
     if (!c->expect->count(e)) { c->bad = true; return; }    // unknown or already handed over: do not touch it
     c->expect->erase(e);
@@ -528,7 +528,7 @@ void apply(Tree &t, CaseCtx &cx, int op, uint8_t a, uint8_t b, int K, size_t max
         fresh_clear(t.liveset);
         t.n = 0;
         const char *kind = t.rb ? "rbtree" : "bintree";
-        LIB(if (t.rb) cstl_rbtree_clear(&t.rt, clear_cb, &g_priv_token); else cstl_bintree_clear(&t.bt, clear_cb, &g_priv_token));
+        LIB(if (t.rb) cstl_rbtree_clear(&t.rt, clear_cb, &g_clear_token); else cstl_bintree_clear(&t.bt, clear_cb, &g_clear_token));
         g_clear_ctx = nullptr;
         TRACE("%s clear (n=%zu) callbacks=%zu", t.tag, n, cc.calls);
         char cl[64];
@@ -582,7 +582,7 @@ void vf_run(const uint8_t *data, size_t len)
     int prof = cur.u8() % NPROFILES;
     bool c15 = g_prop == "C15", c02 = g_prop == "C02";
     if (c02) kind = 2;
-    g_cmp_clause = c02 ? "C02.cmp.priv" : "C01.cmp.priv";
+    g_cmp_clause = c02 ? "C02.cmp.priv" : c15 ? "C15.bintree.reuse" : "C01.cmp.priv";     // (under C15 a wrong priv after clear is C15's finding)
     bool use[2] = {kind != 2, kind != 1};
     CaseCtx cx{};
     T[0].init(false, "bin");
